@@ -126,6 +126,7 @@ DEFAULT_LAYOUT = {
     "pre": ("",),  # lines before the first block
     "name_gap": ("",),  # lines between the block name and loop_
     "suffix": " #",  # label numbering: "_label" + suffix + n   (only if numbered)
+    "number_order": "ascending",  # "descending": the #n comments count down (they are comments, not column positions)
     "post_labels": (),  # lines between the labels and the first row
     "between": ("",),  # lines between two blocks
     "sep": "\t",  # token separator inside a row
@@ -160,8 +161,10 @@ def build(blocks, numbered=True, **layout):
         lines.extend(lay["name_gap"])
         lines.append("loop_" + kw)
         num = b.get("numbered", numbered)
+        nlab = len(b["labels"])
         for j, lab in enumerate(b["labels"], 1):
-            lines.append((f"_{lab}{lay['suffix']}{j}" if num else f"_{lab}") + kw)
+            jj = (nlab + 1 - j) if lay.get("number_order") == "descending" else j
+            lines.append((f"_{lab}{lay['suffix']}{jj}" if num else f"_{lab}") + kw)
         lines.extend(lay["post_labels"])
         for r in b["rows"]:
             lines.append(lay["row_lead"] + lay["sep"].join(str(t) for t in r) + lay["row_trail"])
